@@ -227,7 +227,9 @@ class Inst:
             except Exception:
                 inst.trace.append((op, 'X'))
                 raise
-            n = inst.drec.notifs[n0:][0]
+            # the engine thread may have slipped in a local update of its own (receive_racing_engine): the remote one is the
+            # notification marked local=False
+            n = [x for x in inst.drec.notifs[n0:] if not x[3]][-1]
             inst.trace.append((op, f"C{pl.show_recs(n[0])} H{pl.show_recs(n[1])} U{pl.show_recs(n[2])} | {inst.table()}"))
 
         dec.update = update
@@ -277,6 +279,53 @@ class Inst:
             hook()          # another thread runs while this send is in progress
         self.wire_log.append((self.clock.t, d.urn, TYPE_NAMES.get(msg_type, msg_type), msg_flags, err))
         return err
+
+    def receive_racing_engine(self, data: bytes, addr='127.0.0.1') -> str:
+        """the distributed thread applies a message while the ENGINE thread is about to process data already queued in the
+        receiver: the engine's whole cycle runs at the moment the distributed thread reaches for the decider's lock (it
+        does not hold it yet, so the engine thread may well win it) — and once more right after it let go of it.  What
+        `on_distributed_update` looked at BEFORE taking the lock is stale by then."""
+        dec = self.decider
+        names = [k for k, v in vars(dec).items() if hasattr(v, 'acquire') and hasattr(v, 'release')]
+        state = {'depth': 0, 'fired': False}
+        inst = self
+
+        class Racing:
+            def __init__(self, real):
+                self.real = real
+
+            def __enter__(self):
+                if state['depth'] == 0 and not state['fired']:
+                    state['fired'] = True
+                    for k in names:                      # the engine thread uses the real lock
+                        setattr(dec, k, saved[k])
+                    try:
+                        inst.settle()
+                    finally:
+                        for k in names:
+                            setattr(dec, k, wrapped[k])
+                state['depth'] += 1
+                return self.real.__enter__()
+
+            def __exit__(self, *a):
+                state['depth'] -= 1
+                return self.real.__exit__(*a)
+
+            def acquire(self, *a, **k):
+                return self.real.acquire(*a, **k)
+
+            def release(self):
+                return self.real.release()
+        saved = {k: getattr(dec, k) for k in names}
+        wrapped = {k: Racing(saved[k]) for k in names}
+        for k in names:
+            setattr(dec, k, wrapped[k])
+        try:
+            return self.receive(data, addr, settle=False)
+        finally:
+            for k in names:
+                setattr(dec, k, saved[k])
+            self.settle()
 
     def receive(self, data: bytes, addr='127.0.0.1', settle=True) -> str:
         old = tcpmod.time
@@ -351,7 +400,7 @@ class Cluster:
     def pass_(self, name):
         self.insts[name].outgoing_pass()
 
-    def deliver(self, src, dst, k=0, keep=False, settle=True) -> Optional[str]:
+    def deliver(self, src, dst, k=0, keep=False, settle=True, racing=False) -> Optional[str]:
         q = self.net.links.get((src, dst), [])
         if k >= len(q):
             return None
@@ -360,6 +409,8 @@ class Cluster:
             self.net.meta[(src, dst)].pop(k)
         if not self.insts[dst].alive:
             return 'lost'
+        if racing:
+            return self.insts[dst].receive_racing_engine(data)
         return self.insts[dst].receive(data, settle=settle)
 
     def crash(self, name):
